@@ -184,7 +184,7 @@ macro_rules! sizes {
     ($C:ty, $O:ty, $w:expr, $h:expr, $e:expr) => {
         sizes!(@arms $C, $O, ($w, $h, $e);
             (1, 1, 0), (3, 2, 0), (3, 2, 3), (7, 3, 0), (8, 2, 0), (9, 2, 0), (9, 2, 5), (13, 5, 0), (13, 5, 1),
-            (16, 1, 0), (17, 3, 0), (0, 2, 0), (3, 0, 2))
+            (16, 1, 0), (17, 3, 0), (0, 2, 0), (3, 0, 2), (67, 2, 1), (2, 9, 0))
     };
     (@arms $C:ty, $O:ty, $key:expr; $(($W:literal, $H:literal, $E:literal)),*) => {
         match $key {
@@ -256,7 +256,7 @@ fn mask(bpp: usize, v: i64) -> u32 {
     }
 }
 
-/// one operation token: S:x:y:v | D:x:y:v;x:y:v;... | F:x:y:w:h:v | C:v
+/// one operation token: S:x:y:v | D:x:y:v;x:y:v;... | F:x:y:w:h:v | G:x:y:w:h/v,v,... | C:v
 fn apply(fb: &mut dyn FbLike, bpp: usize, op: &str) {
     let (k, rest) = op.split_at(1);
     let rest = &rest[1..];
@@ -276,6 +276,13 @@ fn apply(fb: &mut dyn FbLike, bpp: usize, op: &str) {
         "F" => {
             let a = i3(rest);
             fb.fill(Rectangle::new(Point::new(a[0] as i32, a[1] as i32), Size::new(a[2] as u32, a[3] as u32)), mask(bpp, a[4]));
+        }
+        "G" => {
+            // G:x:y:w:h/v1,v2,...  fill_contiguous with a finite colour list (shorter / longer than the area allowed)
+            let (r, cols) = rest.split_once('/').unwrap();
+            let a = i3(r);
+            let vs: Vec<u32> = if cols.is_empty() { vec![] } else { cols.split(',').map(|t| mask(bpp, t.parse::<i64>().unwrap())).collect() };
+            fb.fill_contig(Rectangle::new(Point::new(a[0] as i32, a[1] as i32), Size::new(a[2] as u32, a[3] as u32)), &vs);
         }
         "C" => {
             let a = i3(rest);
